@@ -113,9 +113,9 @@ PROPS = {
     "C14": {"driver": _lazy("pwv.drivers_misc", "c14_driver"), "profile": "seed-twin",
             "rule": "programs with projective and generalised measurements run with the real sampler: (a) twice in one process after re-seeding with unrelated activity in between, (b) in a fresh subprocess, comparing key sequence, drawn indices, outcomes and final joint state; (c) key hygiene of every draw (handed key fresh, never equal to a stored key, stored key advances); statistical guard on 256 repeated measurements; case = one comparison; cell = (comparison kind, number of draws class)"},
     "C15": {"driver": _lazy("pwv.twin", "c15_driver"), "profile": "op-reuse-twin",
-            "rule": "twin runs of generated programs: one Operation object reused for all applications of the same description vs a fresh object per application vs unrelated operations (incl. expression composites with other operand types) constructed/applied between any two steps; per-step comparison of joint state and acceptance/rejection; byte comparison of user supplied operator/Kraus/POVM arrays; cell = (twin, step kind, operation, reused|fresh)"},
+            "rule": "twin runs of generated programs: one Operation object reused for all applications of the same description vs a fresh object per application vs unrelated operations (incl. expression composites with other operand types) constructed/applied between any two steps; per-step comparison of joint state and acceptance/rejection; requests that must be refused are made with already used operation objects (and as the very first use of an object) which are re-used afterwards; byte comparison of user supplied operator/Kraus/POVM arrays and of the caller's state_types list; cell = (twin, step kind, operation, reused|fresh)"},
     "C17": {"driver": _c17_driver, "profile": "fault-injection", "replay_oracles": [_o2("judge_c17")],
-            "rule": "eleven kinds of invalid request (non trace preserving / wrong-size Kraus, wrong-size POVM and custom operators, wrong subsystem kind, operand outside the envelope/composite, annihilating the vacuum, shrinking below occupied levels, destroyed subsystem, missing parameter, duplicate operands) injected after random steps of valid programs at every entry point; judged: rejected (exception or documented failure value), joint state unchanged, object graph well formed, valid continuation judged by the transition oracles; cell = (fault kind, call, entry, storage, level)"},
+            "rule": "twelve kinds of invalid request (non trace preserving / wrong-size Kraus, wrong-size POVM and custom operators, wrong subsystem kind incl. operation objects of another family that were applied before, operand outside the envelope/composite, annihilating the vacuum, a custom operator whose kernel holds the whole support of the target, shrinking below occupied levels, destroyed subsystem, missing parameter, duplicate / too many operands) injected after random steps of valid programs at every entry point; judged: rejected (exception or documented failure value), joint state unchanged, object graph well formed, valid continuation judged by the transition oracles; cell = (fault kind, call, entry, storage, level)"},
     "C18": {"driver": _lazy("pwv.twin", "c18_twin"), "profile": "collide-twin",
             "rule": "metamorphic twins: a world whose subsystems hold numerically equal states vs (labels mode) the same world with distinct labels of the same kind and level - structure compared: exceptions, outcome key sets, live sets, storage partition, returned shapes - or (arrays mode) the same physical world with every vector given its own global phase - structure and joint state compared after every step; cell = (twin, mode, step kind, entry, #operands)"},
     "C12": {"driver": _c12_hybrid, "profile": "contract-sweep + in-situ", "replay_oracles": [_o2("judge_c12_step")],
@@ -123,7 +123,7 @@ PROPS = {
     "C16": {"driver": _c16_hybrid, "profile": "contract-trees + in-situ", "replay_oracles": [_o2("judge_c16_step"), _o2("judge_c16_effect")],
             "rule": "contract on photon_weave.extra.expression_interpreter.interpreter (every nested evaluation) comparing the value with an independent evaluator run on a pre-call deep copy, byte-comparing caller-owned array leaves and context results before/after, checking the dimension list handed to the context, and malformed head symbols; random trees over all seven commands with numeric/numpy/jax/context-name leaves; a case = one judged evaluation; cell = (head command, tree depth | check kind)"},
     "C19": {"driver": _lazy("pwv.drivers_pure", "c19_driver"), "profile": "contract-overlap",
-            "rule": "contract on Envelope.overlap_integral against the closed-form Gaussian overlap, plus exchange symmetry; pulse widths log-uniform over 1e-15..10 s including the 42.45 fs default, centre offsets and delays 0..8 widths, both argument orders; a case = one judged call; cell = (decade of the narrower width, equal/unequal widths, delay in widths)"},
+            "rule": "contract on Envelope.overlap_integral against the closed-form Gaussian overlap, plus exchange symmetry; pulse widths log-uniform over 1e-15..10 s including the 42.45 fs default, centre offsets and delays 0..8 widths, both argument orders, repeated questions on the same two envelope objects after a profile was replaced / edited / restored; a case = one judged call; cell = (decade of the narrower width, equal/unequal widths, delay in widths)"},
     "C01": {"profile": "ops", "rule": "seeded online-generated programs (profile ops: worlds of 1-3 envelopes, 0-2 custom states, lone subsystems; 4-12 steps; preparation by composite gates, channels, measurements, combines, reorders) - every single-subsystem apply_operation is one case, judged against (O x I) rho (O x I)^dagger[/trace] on the joint state of all live subsystems; cell = (operation family.type, entry point, storage of the target, level, state class, contraction flag); trivial iff state class is a fresh product of basis labels",  "oracles": [lambda r: O.judge_apply(r, "C01")]},
     "C02": {"profile": "structure", "rule": "every combine / reorder / expand / contract / CompositeEnvelope(...) / trace_out call of generated programs (profile structure, incl. scripted multi-composite prefixes) is one case: joint state before = after; trace_out return value = partial trace in the requested order; cell = (call or trace_out-value, entry point, storage, level, state class, #arguments); trivial iff state class is a fresh product of basis labels",  "oracles": [O.judge_c02], "opts": {"multi_ce": 0.25, "lifecycle": 0.2}},
     "C03": {"profile": "composite", "rule": "every multi-operand apply_operation (CX, CZ, SWAP, CSWAP, beam splitter, expression over 2-3 operands of mixed kinds, operation objects reused on other operands) of generated programs is one case, judged on the joint state with the k-th tensor factor bound to the k-th operand; cell = (operation, entry point, storages, levels, state class, contraction, operands given out of canonical order?); trivial iff state class is a fresh product of basis labels",  "oracles": [lambda r: O.judge_apply(r, "C03")]},
